@@ -301,6 +301,22 @@ func collectLoops(body *ast.BlockStmt) []token.Pos {
 // fresh for both, which is contradictory (every clause calling it twice becomes vacuous): rejected at load time.
 func (eng *Engine) checkPureFresh() error {
 	for _, ct := range eng.contracts {
+		// `generalize g`: forall-introduction over the ghost variable g at call sites is sound only if no precondition
+		// constrains g, the contract is proved (not trusted), and g is a ghost variable (declared in a verif file, which
+		// the real code cannot mention, so the callee cannot assign it)
+		for _, gv := range ct.Generalize {
+			if !strings.HasPrefix(gv, "ghost") {
+				return fmt.Errorf("contract of %s: generalize %s: not a ghost variable", ct.Key, gv)
+			}
+			if ct.Trusted != "" {
+				return fmt.Errorf("contract of %s: generalize on a trusted contract", ct.Key)
+			}
+			for _, rq := range ct.Requires {
+				if strings.Contains(rq.Text, gv) {
+					return fmt.Errorf("%s: contract of %s: generalize %s, but a precondition mentions it", rq.Line, ct.Key, gv)
+				}
+			}
+		}
 		if !ct.Pure {
 			continue
 		}
